@@ -28,7 +28,7 @@ type c11Inj struct{ X int64 }
 
 var c11Marker = "INJ-POINTER" // stands for "the injected pointer itself" in expectations
 
-func always(b bool) func(int64) bool      { return func(int64) bool { return b } }
+func always(b bool) func(int64) bool            { return func(int64) bool { return b } }
 func val(v interface{}) func(int64) interface{} { return func(int64) interface{} { return v } }
 
 var retBehaviours = []retBeh{
@@ -53,17 +53,17 @@ type c11Data struct {
 }
 
 type c11Cfg struct {
-	Beh    []int    `json:"beh"` // behaviour per rule r0,r1,r2 (saliences 9,6,3)
-	Model  string   `json:"model"`
-	B      bool     `json:"b"`
-	N      int      `json:"N,omitempty"`
-	M      int      `json:"M,omitempty"`
-	Names  []string `json:"names,omitempty"`
+	Beh    []int      `json:"beh"` // behaviour per rule r0,r1,r2 (saliences 9,6,3)
+	Model  string     `json:"model"`
+	B      bool       `json:"b"`
+	N      int        `json:"N,omitempty"`
+	M      int        `json:"M,omitempty"`
+	Names  []string   `json:"names,omitempty"`
 	Dag    [][]string `json:"dag,omitempty"`
-	K1     int64    `json:"k1"`
-	Model2 string   `json:"model2,omitempty"` // second call on the same engine ("" = none)
-	K2     int64    `json:"k2"`
-	Pool   string   `json:"pool,omitempty"` // pool method: two sequential requests on pool (1,2)
+	K1     int64      `json:"k1"`
+	Model2 string     `json:"model2,omitempty"` // second call on the same engine ("" = none)
+	K2     int64      `json:"k2"`
+	Pool   string     `json:"pool,omitempty"` // pool method: two sequential requests on pool (1,2)
 }
 
 func c11Text(beh []int) string {
